@@ -239,8 +239,8 @@ Section Run.
             match vd, vs with
             | VSlice d, VSlice sid =>
                 ld <- get_slice d ;; ls <- get_slice sid ;;
-                if (length ls <? length ld)%nat then undef
-                else set_slice d ls ;;; rret [Imm (VInt (Z.of_nat (length ls)))]
+                (* every element of the source is stored, a longer destination keeps its tail; the count is the source's length *)
+                set_slice d (ls ++ skipn (length ls) ld) ;;; rret [Imm (VInt (Z.of_nat (length ls)))]
             | _, _ => undef
             end
         | EItoa x =>
